@@ -4,6 +4,9 @@
    used (the oracle) and the driver evaluates the verified checker on the implementation's result.
    Output line = ok=<ghost flag> rest=<unused oracle answers> chk=<checker on impl output: 1|0|-> # <model result>
    A model [None] (= Rust panic / oracle exhausted) prints "P".
+   Case kinds: red | cpx : <kind> <ring> <threads> <deg> <n> <n ranks> <n-1 matrices>
+               scr       : scr <ring> <threads> <deg> <m> <m+1 ranks> <m matrices> <m with_trans flags> <m+1 vector lists>
+                           <support> <ops>;   bad: the same with <m (rows cols) pairs> instead of the ranks
    Formats (tokens separated by blanks):
      matrix  = <m> <n> <m*n elements, row major>
      trans   = 1 <src> <tgt> <matrix F> <matrix B>  |  0
@@ -151,10 +154,15 @@ let handle_with (type r) (io : r ringio) (kind : string) : string =
           head chk ^ String.concat " | " (Stdlib.List.map snd rs)
         end
     end
-  | "scr" ->
+  | "scr" | "bad" ->
+    (* scr: ranks of the m+1 spaces; bad (malformed stream): explicit (rows, cols) of every matrix *)
     let m = next_int () in
-    let dims = times (m + 1) next_int in
-    let ds = Stdlib.List.init m (fun p -> read_mat io (Stdlib.List.nth dims (p + 1)) (Stdlib.List.nth dims p)) in
+    let shapes =
+      if kind = "scr" then begin
+        let dims = times (m + 1) next_int in
+        Stdlib.List.init m (fun p -> (Stdlib.List.nth dims (p + 1), Stdlib.List.nth dims p))
+      end else times m (fun () -> let a = next_int () in let b = next_int () in (a, b)) in
+    let ds = Stdlib.List.map (fun (a, b) -> read_mat io a b) shapes in
     let wts = times m (fun () -> next () = "1") in
     let vecs = times (m + 1) (fun () -> read_vecs io) in
     let nsupp = next_int () in
@@ -186,7 +194,8 @@ let handle_with (type r) (io : r ringio) (kind : string) : string =
       | None -> "P"
       | Some (st, rest) ->
         let impl = read_state io m in
-        let chk = run_checker io ds vecs impl in
+        (* malformed stream: the checker's clauses are not expected to hold (and its shape assumptions fail) *)
+        let chk = if kind = "bad" then "-" else run_checker io ds vecs impl in
         Printf.sprintf "ok=%s rest=%d chk=%s # " (string_of_bool01 st.okf) (Stdlib.List.length rest) chk ^ show_state io st m
     end
   | _ -> failwith "bad case kind"
